@@ -859,6 +859,11 @@ static int _fetch_and_process_packet(OggVorbis_File *vf,
           vf->current_serialno=vf->os.serialno;
           vf->current_link++;
           link=0;
+
+          /* _fetch_headers has already submitted this page (and any
+             later header page it read) to the stream state; submitting
+             it again would be seen as a gap and reported as OV_HOLE */
+          continue;
         }
       }
     }
